@@ -1,6 +1,6 @@
 import Iscp.Model.KA
 import Driver.Util
-/- topic `ka` (C15): run <I> <T> <d1,d2,..|_> (delay in ms or `x` = never)  ·  announce <ms> <defaultms> -/
+/- topic `ka` (C15): run <I> <T> <d1,d2,..|_> (delay in ms or `x` = never)  ·  announce <ms> <defaultms>  ·  echo  ·  burst <n>  ·  pingburst <n> -/
 namespace Driver.KA
 open Iscp.KA Driver
 
@@ -13,6 +13,19 @@ def step (u : Unit) (line : String) : Unit × String :=
     | .closed _ n _ => "closed pings=" ++ toString n)
   | ["announce", a, b] => "announced " ++ toString (announced (a.toNat?.getD 0) (b.toNat?.getD 0))
   | ["echo"] => if [1, 3, 77, 4294967295].all (fun i => pongFor i == i) then "echo ok" else "echo missing"
+  -- application traffic is no event of the keepalive model: a peer that answers every ping at once is never dropped
+  | ["wireburst", _] =>
+    (match run ⟨100, 160⟩ (List.replicate 8 (some 0)) with
+    | .alive _ _ => "alive"
+    | .closed _ _ _ => "closed")
+  | ["burst", _] =>
+    (match run ⟨100, 160⟩ (List.replicate 8 (some 0)) with
+    | .alive _ _ => "alive"
+    | .closed _ _ _ => "closed")
+  -- every ping is answered with its id
+  | ["pingburst", n] =>
+    let ids := (List.range (n.toNat?.getD 0)).map (fun k => 5001 + 2 * k)
+    "echo " ++ toString (ids.filter (fun i => pongFor i == i)).length
   | _ => "bad-op")
 
 end Driver.KA
